@@ -12,7 +12,7 @@ def run(ctx):
     quick = ctx.tier == "quick"
     pd.t1(ctx, 2, 5 if quick else 6)
     recs = pd.emit_polygons(ctx, 2, 5 if quick else 6)
-    if len(recs) > 3000:
+    if not quick and len(recs) > 3000:
         # the exhaustive family with every relabelling has 1.5e5 members: all of them are model-checked (T1); a seeded sample of
         # 3000 is replayed under six placements (the full replay took more than eight CPU hours)
         import random
